@@ -49,6 +49,13 @@ impl Drop for Elem {
     }
 }
 
+/// (reloading an array of resource-owning elements: Deserialize::deserialize_in_place drops the old ones - caller code)
+impl<'de> serde::Deserialize<'de> for Elem {
+    fn deserialize<D: serde::Deserializer<'de>>(d: D) -> Result<Elem, D::Error> {
+        u32::deserialize(d).map(Elem::new)
+    }
+}
+
 impl PartialEq for Elem {
     fn eq(&self, o: &Elem) -> bool {
         self.origin == o.origin
@@ -151,6 +158,27 @@ pub type B1 = Blob<1>;
 pub type W80 = Blob<80>;
 /// one KiB per element: a few hundred cells already cross every byte-size threshold up to the cache sizes
 pub type W1K = Blob<1024>;
+/// one page per element (element-SIZE thresholds such as size_of::<T>() >= 4096)
+pub type W4K = Blob<4096>;
+
+/// A zero-sized `Copy` element (like `()`): the Copy-only operations exist for it, nothing is ever dropped.
+#[derive(Clone, Copy, PartialEq, Eq, Hash, Debug, Default, PartialOrd, Ord)]
+pub struct Z0;
+
+/// An over-aligned `Copy` element (alignment 128): scratch buffers typed as bytes or words are misaligned for it.
+#[derive(Clone, Copy, PartialEq, Eq, Hash, Debug, Default)]
+#[repr(align(128))]
+pub struct A128(pub u32);
+impl PartialOrd for A128 {
+    fn partial_cmp(&self, o: &Self) -> Option<Ordering> {
+        Some(self.cmp(o))
+    }
+}
+impl Ord for A128 {
+    fn cmp(&self, o: &Self) -> Ordering {
+        (self.0 % 3).cmp(&(o.0 % 3))
+    }
+}
 
 /// A move-only element WITHOUT drop glue (`mem::needs_drop::<Tok>()` is false): it cannot be dropped twice, but it can
 /// still be *duplicated* - two owners of one value, which for `&mut U` or a linear token is unsound.  Identity = serial
@@ -379,6 +407,44 @@ impl<const N: usize> CellT for Blob<N> {
         r.copy_within(src, d);
         true
     }
+}
+
+macro_rules! copy_ops {
+    () => {
+        fn copy_from_slice_on<R: toodee::CopyOps<Self>>(r: &mut R, src: &[Self]) -> bool {
+            r.copy_from_slice(src);
+            true
+        }
+        fn copy_from_toodee_on<R: toodee::CopyOps<Self>, S: toodee::TooDeeOps<Self>>(r: &mut R, s: &S) -> bool {
+            r.copy_from_toodee(s);
+            true
+        }
+        fn copy_within_on<R: toodee::CopyOps<Self>>(r: &mut R, src: ((usize, usize), (usize, usize)), d: (usize, usize)) -> bool {
+            r.copy_within(src, d);
+            true
+        }
+    };
+}
+impl CellT for Z0 {
+    const KIND: &'static str = "z0";
+    const HAS_VALUE: bool = false;
+    fn make(_: u32) -> Z0 {
+        Z0
+    }
+    fn origin(&self) -> u32 {
+        0
+    }
+    copy_ops!();
+}
+impl CellT for A128 {
+    const KIND: &'static str = "a128";
+    fn make(origin: u32) -> A128 {
+        A128(origin)
+    }
+    fn origin(&self) -> u32 {
+        self.0
+    }
+    copy_ops!();
 }
 
 impl CellT for Zst {
